@@ -180,6 +180,26 @@ def rand_suite(tier, seed, sid0):
                 sc = gen.composite(rng, sid, kind)
                 sc["tag"] = {"suite": "comp"}
             out.append(sc)
+    for kind in ALL:
+        for j in range(max(10, per // 6)):
+            sc = gen.skip_storm(rng, sid0 + len(out), kind)
+            sc["tag"] = {"suite": "skip_storm"}
+            out.append(sc)
+    # elements that own heap memory: a leaked element is a leaked allocation (sequential and concurrent)
+    for kind in ("vec_h", "iter_h"):
+        for j in range(per):
+            base = "vec" if kind == "vec_h" else "iter"
+            sc = gen.sequential(rng, sid0 + len(out), base, p_skip=0.0) if j % 2 else gen.concurrent(rng, sid0 + len(out), base, hint="exact")
+            sc["kind"] = kind
+            sc["tag"] = {"suite": "heap_elems"}
+            out.append(sc)
+    # zero-sized elements have no identity: sequential histories only (the value reported is the delivery order)
+    for kind in ("vec_zst", "array_zst"):
+        for j in range(per // 2):
+            sc = gen.sequential(rng, sid0 + len(out), "array" if kind == "array_zst" else "vec", p_skip=0.05)
+            sc["kind"] = kind
+            sc["tag"] = {"suite": "zst_seq"}
+            out.append(sc)
     # non-fused wrapped iterators: after its first None the source yields further items
     for j in range(per):
         sid = sid0 + len(out)
@@ -213,9 +233,29 @@ def panic_suite(tier, seed, sid0):
                     sc = gen.concurrent(rng, sid0 + len(out), kind, ln=ln, hint="exact")
                     t = rng.randrange(len(sc["threads"]))
                     sc["threads"][t] = [{"op": rng.choice(["foreach", "eforeach", "fold"]), "n": rng.choice([1, 2, 3]),
-                                         "panic_at": k}] + sc["threads"][t][:1]
+                                         "panic_at": k, "unwind": rng.random() < 0.4}] + sc["threads"][t][:1]
                     sc["tag"] = {"suite": "panic_closure", "k": k}
                     out.append(sc)
+    # the k-th clone of an element panics (cloned adaptors), with a scheduling point inside clone()
+    for kind in ["cloned_slice", "cloned_iter"]:
+        for ln in (2, 3, 4):
+            for k in range(1, ln + 1):
+                for _ in range(reps):
+                    sc = gen.concurrent(rng, sid0 + len(out), kind, ln=ln, hint="exact")
+                    sc["clone_panic"] = k
+                    sc["post"] = [{"op": "hasmore"}, {"op": "next"}, {"op": "chunk", "n": 2}, {"op": "len"}]
+                    sc["tag"] = {"suite": "panic_clone", "k": k}
+                    out.append(sc)
+    # wrapped iterator panics with heap-owning elements (what the machinery buffered must still be released)
+    for ln in (2, 3, 4):
+        for k in range(1, ln + 2):
+            for _ in range(reps):
+                sc = gen.concurrent(rng, sid0 + len(out), "iter", ln=ln, hint="exact")
+                sc["kind"] = "iter_h"
+                sc["panic_next"] = k
+                sc["post"] = [p for p in sc.get("post", []) if p["op"] != "intoseq"]
+                sc["tag"] = {"suite": "panic_next_heap", "k": k}
+                out.append(sc)
     # a destructor of an element panics while the machinery drops it (consuming kinds)
     for kind in ["vec", "array", "iter"]:
         for ln in (2, 3, 4):
@@ -282,6 +322,17 @@ def dual_suite(tier, seed, sid0):
                 sc["policy"] = "rand"
             sc["tag"] = {"suite": "dual"}
             out.append(sc)
+    # TLC-generated behaviours (explicit schedules, hence identical in both builds): a seeded sample
+    gc, _ = gen_counter("quick", seed + 1, 0)
+    gt, _ = gen_ticket("quick", seed + 1, 0)
+    n = 700 if tier == "quick" else 8000
+    for pool in (gc, gt):
+        rng.shuffle(pool)
+        for sc in pool[:n]:
+            sc = dict(sc)
+            sc["id"] = sid0 + len(out)
+            sc["tag"] = {"suite": "dual_gen"}
+            out.append(sc)
     return out, {"replayed": len(out)}
 
 
@@ -328,6 +379,9 @@ def boundary_suite(tier, seed, sid0):
 
     def steps(ops):
         st = []
+        if any(o["k"] == "bnew" and o["n"] != 0 for o in ops) and not any(o["k"] == "intoseq" for o in ops):
+            # later buffered pulls are the interesting ones (the first is always in range)
+            ops = list(ops) + [{"k": "bnext", "n": 0, "take": 2}] * 3
         for o in ops:
             x = {"op": o["k"]}
             if o["k"] in ("chunk", "bnew", "foreach", "eforeach", "fold"):
@@ -339,7 +393,7 @@ def boundary_suite(tier, seed, sid0):
     for i, b in enumerate(br[:nr]):
         out.append({"id": sid0 + len(out), "kind": "range" if i % 4 else "rangeref", "len": 0, "start": b["start"], "end": b["end"],
                     "threads": [], "pre": steps(b["ops"]), "tag": {"suite": "boundary_range"}})
-    kinds = ["slice", "vec", "array", "iter", "cloned_slice", "copied_slice", "refiter", "vecref"]
+    kinds = ["slice", "vec", "array", "iter", "cloned_slice", "copied_slice", "refiter", "vecref", "vec_zst", "array_zst"]
     for i, b in enumerate(bs[:ns]):
         kind = kinds[i % len(kinds)]
         if kind in ("iter", "refiter") and any(o["k"] == "bnew" and o["n"] > 4096 for o in b["ops"]):
